@@ -25,9 +25,9 @@ MUTANTS = {
         dict(name='update-matches-on-state-vector', file=S,
              old="                if dawgie.util.vref_as_name(vref) in vns:",
              new="                if any(dawgie.util.vref_as_name(vref).rsplit('.', 1)[0] == v.rsplit('.', 1)[0] for v in vns):"),
-        dict(name='res-updates-before-complete-only-on-new', file=F,
+        dict(name='res-updates-first-two-values-only', file=F,
              old="                dawgie.pl.schedule.update(msg.values, job, msg.runid)\n",
-             new="                if dawgie.pl.farm.ARCHIVE:\n                    dawgie.pl.schedule.update(msg.values, job, msg.runid)\n"),
+             new="                dawgie.pl.schedule.update(msg.values[:2], job, msg.runid)\n"),
     ],
     'C03': [
         dict(name='dispatch-keeps-do', file=F, old="            j.get('do').clear()\n", new="            pass\n"),
